@@ -18,7 +18,7 @@ def facts(c):
 
 
 def setup(c):
-    c.cov["rule"] = ("stateful cases of op lines; white-box ops (submit/fetch/breset/flush/recv/kill/cancel/close/panicloop/…) are "
+    c.cov["rule"] = ("stateful cases of op lines; white-box ops (submit/fetch/breset/flush/flushwait/recv/kill/cancel/close/panicloop/…) are "
                      "correspondence ops: heap array, ids per built group, in-flight table, epoch and every caller's return value "
                      "of the REAL sendBatchRequest/fetchAllPendingRequests/getClientAndSend/send/batchRecvLoop/"
                      "recreateStreamingClient code against the Lean model; `audit` and `bb` are property ops (each side evaluates "
